@@ -1,5 +1,5 @@
 (* C17 (1/3) -- proofs about the ps13 model (Model/C17_Spelling.v). *)
-From PV Require Import Lib.Base Gen.C17_PS13 Model.C17_Spelling Proofs.C17_lib.
+From PV Require Import Lib.Base Gen.C17_PS13 Gen.C17_MidiTab Model.C17_Spelling Proofs.C17_lib.
 From Coq Require Import Sorting.Sorted Sorting.Permutation.
 #[local] Open Scope Z_scope.
 
@@ -268,6 +268,83 @@ Proof.
   destruct (spell_from_shape _ _ _ _ _ _ _ _ Hin) as [mp ->].
   rewrite p2pn_sounds_lemma. unfold chromatic_pitch. f_equal. lia.
 Qed.
+
+(* ------------------------------------------------------------------ *)
+(* the model's notion of "sounds" is partitura's own: Note(step, octave, alter).midi_pitch,
+   tabulated on the complete domain a spelling of a pitch 21..108 can fall in *)
+
+Definition midi_sweep : bool :=
+  forallb (fun st => forallb (fun al => forallb (fun oc =>
+    match note_midi_pitch st al oc, midi_of_name st al oc with
+    | Some a, Some b => a =? b
+    | _, _ => false
+    end) (zrange 0 9)) (zrange (-2) 5)) ps_steps.
+
+Lemma midi_sweep_true : midi_sweep = true.
+Proof. vm_compute. reflexivity. Qed.
+
+Lemma note_midi_pitch_spec : forall st al oc, In st ps_steps -> -2 <= al <= 2 -> 0 <= oc <= 8 ->
+  note_midi_pitch st al oc = midi_of_name st al oc /\ midi_of_name st al oc <> None.
+Proof.
+  intros st al oc Hs Ha Ho. pose proof midi_sweep_true as H. unfold midi_sweep in H.
+  pose proof (forallb_In _ _ H st Hs) as H1. cbv beta in H1.
+  pose proof (forallb_In _ _ H1 al (zrange_In (-2) 5 al ltac:(lia))) as H2. cbv beta in H2.
+  pose proof (forallb_In _ _ H2 oc (zrange_In 0 9 oc ltac:(lia))) as H3. cbv beta in H3.
+  destruct (note_midi_pitch st al oc) as [a|]; [|discriminate].
+  destruct (midi_of_name st al oc) as [b|]; [|discriminate].
+  apply Z.eqb_eq in H3. subst. split; [reflexivity | discriminate].
+Qed.
+
+Lemma midi_of_as_name : forall sp, midi_of sp = midi_of_name (step_name (sp_step sp)) (sp_alter sp) (sp_octave sp).
+Proof. reflexivity. Qed.
+
+Lemma p2pn_step_range : forall cp mp, 0 <= sp_step (p2pn cp mp) < 7.
+Proof. intros cp mp. unfold p2pn, sp_step. cbn [fst]. apply Z.mod_pos_bound. lia. Qed.
+
+Lemma step_name_in : forall i, 0 <= i < 7 -> In (step_name i) ps_steps.
+Proof.
+  intros i H. unfold step_name. apply nth_In.
+  replace (List.length ps_steps) with 7%nat by (vm_compute; reflexivity). lia.
+Qed.
+
+(* the pitch class of a step of STEPS is one of 0..11 *)
+Lemma step_pc_range : forall i b, 0 <= i < 7 -> step_pc (step_name i) = Some b -> 0 <= b <= 11.
+Proof.
+  intros i b H.
+  assert (Hc : i = 0 \/ i = 1 \/ i = 2 \/ i = 3 \/ i = 4 \/ i = 5 \/ i = 6) by lia.
+  destruct Hc as [E|[E|[E|[E|[E|[E|E]]]]]]; subst i;
+    match goal with |- step_pc (step_name ?i) = _ -> _ =>
+      let t := eval vm_compute in (step_pc (step_name i)) in change (step_pc (step_name i)) with t end;
+    intros E; inversion E; lia.
+Qed.
+
+(* a note of the piano range 21..108, spelled with any context sizes K_pre, K_post >= 1, is a note
+   partitura reads back with exactly the row's MIDI pitch *)
+Lemma ps13_note_midi_pitch_lemma : forall kpre kpost rows r sp, (1 <= kpost)%nat ->
+  21 <= r_pitch r <= 108 -> In (r, sp) (spell_tab kpre kpost rows) ->
+  note_midi_pitch (step_name (sp_step sp)) (sp_alter sp) (sp_octave sp) = Some (r_pitch r).
+Proof.
+  intros kpre kpost rows r sp Hk Hp Hin.
+  pose proof (ps13_sounds_lemma _ _ _ _ _ Hin) as Hs.
+  pose proof (ps13_alter_bounded_lemma _ _ _ _ _ Hk Hin) as Ha.
+  assert (Hst : 0 <= sp_step sp < 7).
+  { unfold spell_tab in Hin. destruct (spell_from_shape _ _ _ _ _ _ _ _ Hin) as [mp ->]. apply p2pn_step_range. }
+  rewrite midi_of_as_name in Hs.
+  assert (Ho : 0 <= sp_octave sp <= 8).
+  { unfold midi_of_name in Hs. destruct (step_pc (step_name (sp_step sp))) as [b|] eqn:Eb; [|discriminate].
+    pose proof (step_pc_range _ _ Hst Eb) as Hb.
+    assert (Hq : 12 * (sp_octave sp + 1) + b + sp_alter sp = r_pitch r) by congruence.
+    clear Hs Eb. lia. }
+  destruct (note_midi_pitch_spec _ _ _ (step_name_in _ Hst) Ha Ho) as [E _].
+  rewrite E. exact Hs.
+Qed.
+
+(* the bound K_post >= 1 of ps13_alter_bounded is sharp: with K_post = 0 a note is not in its own
+   context, the first note has an empty one, morph 0 (the step A) wins by default: D#4 (63) alone
+   is spelled as A with six sharps *)
+Example ps13_alter_kpost0 :
+  map named_of (spell_tab 10 0 [(0, 63, 1)]) = [((0, 63, 1), ("A", 6, 3))]%string.
+Proof. vm_compute. reflexivity. Qed.
 
 (* ------------------------------------------------------------------ *)
 (* the canonical sort and order independence *)
